@@ -100,7 +100,10 @@ def run(chk):
             if pt:
                 kstar, th = pt
                 cthr = gt.make_case(dict(cfg, cap=Kbig, cthr=th), X, chunks)
-                if cthr["well_conditioned"]:
+                # the model is compared only when the deciding relative changes are far above the rounding noise of the reported values
+                # (a threshold of 1e-15 sits between two values that are a few ulps each: which side of it a run falls on is decided by
+                # the summation order, not by the rule; the implementation's own consistency is still checked below for every threshold)
+                if cthr["well_conditioned"] and th >= 1e-10:
                     terms.append(cthr["term"])
                 chk.count(1, key=("stop", kstar, bool(chunks)))
                 ref = gt.make_case(dict(cfg, cap=kstar), X, chunks)
@@ -184,7 +187,7 @@ def run(chk):
         mb, _ = gt.build_machine(cfgq)
         na, La, _ = gt.run_fit(ma, Xq)
         nb, Lb, _ = gt.run_fit(mb, X64)
-        if not (gt.well_conditioned(ma, X64) and gt.well_conditioned(mb, X64)):
+        if not gt.well_conditioned(mb, X64):       # judged on the float64 reference run only: a typed run that collapses while the reference does not IS a difference
             # a collapsed variance (quantised feature, component on one point) makes both runs rounding-dominated: not compared (DESIGN 9.5)
             chk.count(1, key=("dtype", np.dtype(dt).name, "excluded: collapsed variance"))
             continue
